@@ -2,7 +2,7 @@
 on the inter-procedurally expanded CFG of the verifier (`verify`) and of the prover
 (`Prover::generate_proof`), plus origin requirements for what is absorbed (engine E3)."""
 from ..cfg import S, T
-from ..flow import flow
+from ..flow import partial_iteration, flow
 from ..ir import Program, callee_name, op_local, AnchorError
 from ..supergraph import Super, reaches_event
 
@@ -423,7 +423,7 @@ def verifier_origin_rules(ck, prog, sg, tags):
         f = sg.fn_of_ctx[n[0]]
         g2 = flow(f)
         sl = arg_prod(f, n[1], 1)
-        bad = [nm for nm in g2.callee_names_in(sl) if nm.split("::")[-1] in ("skip", "take", "step_by", "filter", "skip_while", "take_while", "rev", "nth")]
+        bad = partial_iteration(g2.callee_names_in(sl))
         ck.ob("E3.absorbed", f"V:all-fri-roots@{f.nname}", not bad,
               "the loop absorbing FRI layer commitments ranges over all commitments read from the channel",
               loc=f.loc(n[1], "T"), detail=f"partial iteration adaptors: {bad}" if bad else None)
